@@ -90,7 +90,7 @@ def _one(args):
         try:
             mod.run(project, chk)
             chk.raise_unmet_floors()
-        except AnalysisError:
+        except Exception:
             if not chk.split_findings()[0]:
                 raise
         new, _ = chk.split_findings()
